@@ -134,7 +134,7 @@ fn server_ack_gate(from_b: bool) {
     std::mem::forget(s);
 }
 
-//@h props=C07,C08 tier=quick timeout=1800 role=server-ack-gate args=--no-memory-safety-checks
+//@h props=C07,C08 tier=thorough timeout=3000 group=heavy role=server-ack-gate args=--no-memory-safety-checks
 //@fn Server::{handle_frame, handle_handshake_syn, handle_handshake_ack}
 //@bound compatible SYN (fields any) from A, then ACK with ANY nonce from A
 //@assume VecMap; opaque connection model; socket model; nonce source any; crc stubbed; pointer checks off
@@ -143,7 +143,7 @@ fn server_ack_gate(from_b: bool) {
 #[kani::stub(crate::frame::serial::crc::compute, crate::frame::serial::verif_codec::crc_stub)]
 fn o7_1_server_connect_requires_nonce() { server_ack_gate(false); }
 
-//@h props=C07,C08 tier=quick timeout=1800 role=server-ack-gate args=--no-memory-safety-checks
+//@h props=C07,C08 tier=thorough timeout=3000 group=heavy role=server-ack-gate args=--no-memory-safety-checks
 //@fn Server::{handle_frame, handle_handshake_syn, handle_handshake_ack}
 //@bound compatible SYN from A, then ACK with ANY nonce (the right one included) from another address B
 //@assume VecMap; opaque connection model; socket model; nonce source any; crc stubbed; pointer checks off
@@ -151,6 +151,42 @@ fn o7_1_server_connect_requires_nonce() { server_ack_gate(false); }
 #[kani::unwind(6)]
 #[kani::stub(crate::frame::serial::crc::compute, crate::frame::serial::verif_codec::crc_stub)]
 fn o7_1_server_ack_from_other_address() { server_ack_gate(true); }
+
+fn ack_gate_shape(server_nonce: u32, ack_nonce: u32, from_b: bool) {
+    unsafe { env::RANDOM_FIXED = Some(server_nonce); }
+    let cfg = any_cfg();
+    let mut s = mk_server(4, 4, cfg.clone());
+    let syn = any_syn(true, &cfg);
+    s.handle_frame(addr(A), frame::Frame::HandshakeSynFrame(syn.clone()), 1000);
+    s.handle_frame(addr(if from_b { B } else { A }), frame::Frame::HandshakeAckFrame(frame::HandshakeAckFrame { nonce_ack: ack_nonce }), 1500);
+    let ca = count_events(&s, A).0;
+    assert!(count_events(&s, B).0 == 0 && class_of(&s, B) == 0, "[C07] an ACK from an address that never sent a SYN creates nothing");
+    if !from_b && ack_nonce == server_nonce {
+        assert!(ca == 1 && class_of(&s, A) == 2 && unsafe { oq::NEW_COUNT } == 1, "[C07] Connect once the address returned the server's nonce");
+    } else {
+        assert!(ca == 0 && unsafe { oq::NEW_COUNT } == 0 && class_of(&s, A) == 1, "[C07] no Connect without the right nonce from the right address");
+    }
+    unsafe { env::RANDOM_FIXED = None; }
+    std::mem::forget(s);
+}
+
+//@h props=C07,C08 tier=quick timeout=1200 role=server-ack-gate-shapes args=--no-memory-safety-checks
+//@fn Server::{handle_frame, handle_handshake_syn, handle_handshake_ack}
+//@bound compatible SYN (fields any) from A; server nonce pinned to 0x80000001; ACK shapes: nonce off by one bit (0x80000000) from A -> no Connect
+//@assume VecMap; opaque connection model; socket model; nonce source pinned; crc stubbed; pointer checks off
+#[kani::proof]
+#[kani::unwind(6)]
+#[kani::stub(crate::frame::serial::crc::compute, crate::frame::serial::verif_codec::crc_stub)]
+fn o7_1_server_ack_wrong_nonce_shape() { ack_gate_shape(0x8000_0001, 0x8000_0000, false); }
+
+//@h props=C07,C08 tier=quick timeout=1200 role=server-ack-gate-shapes args=--no-memory-safety-checks
+//@fn Server::{handle_frame, handle_handshake_syn, handle_handshake_ack}
+//@bound compatible SYN (fields any) from A; server nonce pinned; the RIGHT nonce arrives from another address B -> no Connect, nothing created for B
+//@assume VecMap; opaque connection model; socket model; nonce source pinned; crc stubbed; pointer checks off
+#[kani::proof]
+#[kani::unwind(6)]
+#[kani::stub(crate::frame::serial::crc::compute, crate::frame::serial::verif_codec::crc_stub)]
+fn o7_1_server_right_nonce_wrong_address_shape() { ack_gate_shape(0x0012_3456, 0x0012_3456, true); }
 
 //@h props=C07,C13,C06 tier=quick timeout=1800 role=server-negotiation args=--no-memory-safety-checks
 //@fn Server::{handle_frame, handle_handshake_syn, handle_handshake_ack}
@@ -175,7 +211,7 @@ fn o7_3_server_negotiated_config() {
     std::mem::forget(s);
 }
 
-//@h props=C07,C08 tier=quick timeout=1500 role=server-no-reset args=--no-memory-safety-checks
+//@h props=C07,C08 tier=thorough timeout=3000 group=heavy role=server-no-reset args=--no-memory-safety-checks
 //@fn Server::{handle_frame, handle_handshake_syn, handle_handshake_ack}
 //@bound server with an ESTABLISHED connection for A (handshake run through the code); then a second SYN (fields any) or an ACK (nonce any) from A
 //@assume VecMap; opaque connection model; socket model; nonce source any; crc stubbed
@@ -205,9 +241,15 @@ fn o7_5_server_established_not_reset_by_handshake_frames() {
 
 // ---- C17 ------------------------------------------------------------------------------------
 
+// The limit obligations count connections; they use the default endpoint configuration and SYNs that are
+// compatible with it by construction (nonce any), so that the handlers' refusal branches stay concrete.
+fn ok_syn() -> frame::HandshakeSynFrame {
+    frame::HandshakeSynFrame { version: PROTOCOL_VERSION, nonce: kani::any(), max_receive_rate: 1_000_000, max_packet_size: 1000, max_receive_alloc: 2_000_000 }
+}
+
 fn complete_handshake(s: &mut Server, port: u16, cfg: &EndpointConfig, t: u64) -> bool {
     let before = unsafe { env::RANDOM_CALLS };
-    s.handle_frame(addr(port), frame::Frame::HandshakeSynFrame(any_syn(true, cfg)), t);
+    s.handle_frame(addr(port), frame::Frame::HandshakeSynFrame(ok_syn()), t);
     if unsafe { env::RANDOM_CALLS } == before { return false; }
     let n = unsafe { env::RANDOM_LAST };
     s.handle_frame(addr(port), frame::Frame::HandshakeAckFrame(frame::HandshakeAckFrame { nonce_ack: n }), t);
@@ -222,11 +264,11 @@ fn complete_handshake(s: &mut Server, port: u16, cfg: &EndpointConfig, t: u64) -
 #[kani::unwind(6)]
 #[kani::stub(crate::frame::serial::crc::compute, crate::frame::serial::verif_codec::crc_stub)]
 fn o17_1_many_syns_before_any_ack() {
-    let cfg = any_cfg();
+    let cfg = EndpointConfig::default();
     let mut s = mk_server(2, 1, cfg.clone());
-    s.handle_frame(addr(A), frame::Frame::HandshakeSynFrame(any_syn(true, &cfg)), 0);
+    s.handle_frame(addr(A), frame::Frame::HandshakeSynFrame(ok_syn()), 0);
     let na = unsafe { env::RANDOM_LAST };
-    s.handle_frame(addr(B), frame::Frame::HandshakeSynFrame(any_syn(true, &cfg)), 0);
+    s.handle_frame(addr(B), frame::Frame::HandshakeSynFrame(ok_syn()), 0);
     let nb = unsafe { env::RANDOM_LAST };
     assert!(s.clients.len() <= 2, "[C17] never more than max_total_connections tracked");
     s.handle_frame(addr(A), frame::Frame::HandshakeAckFrame(frame::HandshakeAckFrame { nonce_ack: na }), 1);
@@ -247,11 +289,11 @@ fn o17_1_many_syns_before_any_ack() {
 #[kani::unwind(6)]
 #[kani::stub(crate::frame::serial::crc::compute, crate::frame::serial::verif_codec::crc_stub)]
 fn o17_1_total_limit_refuses_with_server_full() {
-    let cfg = any_cfg();
+    let cfg = EndpointConfig::default();
     let mut s = mk_server(1, 1, cfg.clone());
-    s.handle_frame(addr(A), frame::Frame::HandshakeSynFrame(any_syn(true, &cfg)), 0);
+    s.handle_frame(addr(A), frame::Frame::HandshakeSynFrame(ok_syn()), 0);
     assert!(class_of(&s, A) == 1);
-    let syn_b = any_syn(true, &cfg);
+    let syn_b = ok_syn();
     s.handle_frame(addr(B), frame::Frame::HandshakeSynFrame(syn_b.clone()), 0);
     assert!(class_of(&s, B) == 0 && s.clients.len() == 1, "[C17] a handshake that would exceed max_total_connections is not tracked");
     assert!(s.socket.sent_n() == 2);
@@ -268,7 +310,7 @@ fn o17_1_total_limit_refuses_with_server_full() {
 #[kani::unwind(6)]
 #[kani::stub(crate::frame::serial::crc::compute, crate::frame::serial::verif_codec::crc_stub)]
 fn o17_1_capacity_returns_after_connection_ends() {
-    let cfg = any_cfg();
+    let cfg = EndpointConfig::default();
     let mut s = mk_server(1, 1, cfg.clone());
     assert!(complete_handshake(&mut s, A, &cfg, 0));
     assert!(class_of(&s, A) == 2);
@@ -289,36 +331,27 @@ fn o17_1_capacity_returns_after_connection_ends() {
 
 // ---- C18 ------------------------------------------------------------------------------------
 
-//@h props=C18 tier=quick timeout=2400 role=server-amplification args=--no-memory-safety-checks
-//@fn Server::{handle_frame (all handlers), handle_events, handle_event}
-//@bound address A untracked or Pending (entry created by the code from a SYN with any fields); then ONE of: any frame of any type from A (fields any), or a timer evaluation at any time; bytes received counted at each frame type's exact wire size (decided by the codec obligations: SYN = 1472)
-//@assume VecMap; opaque connection model; socket model; nonce source any; crc stubbed
-#[kani::proof]
-#[kani::unwind(6)]
-#[kani::stub(crate::frame::serial::crc::compute, crate::frame::serial::verif_codec::crc_stub)]
-fn o18_1_no_amplification_step() {
+fn amplification_step(start_pending: bool, k: u8) {
     let cfg = any_cfg();
     let mut s = mk_server(4, 4, cfg.clone());
     // potential: received - sent - 25 * (SYN-ACK resends still owed)
     let mut recv: usize = 0;
-    let start_pending: bool = kani::any();
     if start_pending {
-        s.handle_frame(addr(A), frame::Frame::HandshakeSynFrame(any_syn(false, &cfg)), 0);
+        s.handle_frame(addr(A), frame::Frame::HandshakeSynFrame(ok_syn_for(&cfg)), 0);
         recv += 1472;
+        assert!(class_of(&s, A) == 1);
     }
-    let left0: usize = if class_of(&s, A) == 1 { 10 } else { 0 };
+    let left0: usize = if start_pending { 10 } else { 0 };
     let phi0 = recv as isize - s.socket.sent_bytes() as isize - 25 * left0 as isize;
     if start_pending { assert!(phi0 >= 1472 - 25 - 250, "[C18] replies to a first SYN stay far below its size, resends included"); }
-    let k: u8 = kani::any();
-    kani::assume(k < 10);
     let t = any_time();
     let sent0 = s.socket.sent_bytes();
     let got: usize = match k {
         0 => { s.handle_frame(addr(A), frame::Frame::HandshakeSynFrame(any_syn(false, &cfg)), t); 1472 }
         1 => { s.handle_frame(addr(A), frame::Frame::HandshakeSynAckFrame(frame::HandshakeSynAckFrame { nonce_ack: kani::any(), nonce: kani::any(), max_receive_rate: 0, max_packet_size: 0, max_receive_alloc: 0 }), t); 25 }
-        2 => { // an ACK with a wrong nonce (the right one verifies the address: out of scope of this property)
+        2 => { // an ACK with a wrong nonce (the right one verifies the address: then the property no longer speaks about it)
                let n: u32 = kani::any();
-               if class_of(&s, A) == 1 { kani::assume(n != unsafe { env::RANDOM_LAST }); }
+               if start_pending { kani::assume(n != unsafe { env::RANDOM_LAST }); }
                s.handle_frame(addr(A), frame::Frame::HandshakeAckFrame(frame::HandshakeAckFrame { nonce_ack: n }), t); 9 }
         3 => { s.handle_frame(addr(A), frame::Frame::HandshakeErrorFrame(frame::HandshakeErrorFrame { nonce_ack: kani::any(), error: frame::HandshakeErrorType::Config }), t); 10 }
         4 => { s.handle_frame(addr(A), frame::Frame::DisconnectFrame(frame::DisconnectFrame {}), t); 5 }
@@ -331,16 +364,73 @@ fn o18_1_no_amplification_step() {
     recv += got;
     let sent_now = s.socket.sent_bytes() - sent0;
     // resends still owed after the step
-    let left1: usize = if class_of(&s, A) == 1 {
+    let pending_after = class_of(&s, A) == 1;
+    let left1: usize = if pending_after {
         if k == 9 && sent_now > 0 { left0 - 1 } else if left0 == 0 { 10 } else { left0 }
     } else { 0 };
     let phi1 = recv as isize - s.socket.sent_bytes() as isize - 25 * left1 as isize;
     assert!(unsafe { oq::NEW_COUNT } == 0, "[C18,C07] no connection without the nonce");
     assert!(phi1 >= phi0, "[C18] no step lets the bytes sent to an unverified address (plus resends still owed) gain on the bytes received from it");
-    if got > 0 { assert!(phi1 >= phi0 + 5 || (k == 0 && !start_pending), "[C18] every datagram received adds at least 5 bytes of margin"); }
+    if got > 0 { assert!(phi1 >= phi0 + 5, "[C18] every datagram received adds at least 5 bytes of margin"); }
     if k == 9 { assert!(sent_now <= 25, "[C18] a timer evaluation sends at most one SYN-ACK resend"); }
-    assert!(s.socket.sent_bytes() < recv || recv == 0 && s.socket.sent_bytes() == 0, "[C18] total sent stays below total received");
-    kani::cover!(k == 9 && sent_now == 25, "SYN-ACK resend");
-    kani::cover!(k == 0 && start_pending, "repeated SYN while pending");
+    assert!(s.socket.sent_bytes() < recv || (recv == 0 && s.socket.sent_bytes() == 0), "[C18] total sent stays below total received");
     std::mem::forget(s);
 }
+
+// a SYN compatible with the given configuration (nonce and rate any)
+fn ok_syn_for(cfg: &EndpointConfig) -> frame::HandshakeSynFrame { any_syn(true, cfg) }
+
+macro_rules! amp {
+    ($name:ident, $pending:expr, $k:expr) => {
+        #[kani::proof]
+        #[kani::unwind(6)]
+        #[kani::stub(crate::frame::serial::crc::compute, crate::frame::serial::verif_codec::crc_stub)]
+        fn $name() { amplification_step($pending, $k); }
+    };
+}
+
+//@h props=C18 tier=quick timeout=1500 role=server-amplification args=--no-memory-safety-checks
+//@fn Server::{handle_frame, handle_handshake_syn}
+//@bound address A untracked; ONE SYN with every field any (compatible, wrong version, incompatible limits): replies are 25 or 10 bytes against 1472 received
+//@assume VecMap; opaque connection model; socket model; nonce source any; crc stubbed; pointer checks off; received bytes counted at the exact wire size of each frame type (codec obligations)
+amp!(o18_1_untracked_syn, false, 0);
+//@h props=C18 tier=quick timeout=1500 role=server-amplification args=--no-memory-safety-checks
+//@fn Server::{handle_frame, handle_handshake_syn}
+//@bound address A pending (entry created by the code); a second SYN with every field any
+//@assume as o18_1_untracked_syn
+amp!(o18_1_pending_repeated_syn, true, 0);
+//@h props=C18 tier=quick timeout=1500 role=server-amplification args=--no-memory-safety-checks
+//@fn Server::{handle_frame, handle_handshake_ack}
+//@bound address A pending; a handshake ACK with ANY wrong nonce
+//@assume as o18_1_untracked_syn
+amp!(o18_1_pending_wrong_ack, true, 2);
+//@h props=C18 tier=quick timeout=1500 role=server-amplification args=--no-memory-safety-checks
+//@fn Server::{handle_events, handle_event}
+//@bound address A pending; ONE timer evaluation at any time < 2^40
+//@assume as o18_1_untracked_syn
+amp!(o18_1_pending_timer, true, 9);
+//@h props=C18 tier=thorough timeout=1500 role=server-amplification args=--no-memory-safety-checks
+//@fn Server::handle_frame (stray frame types)
+//@bound address A pending; a Disconnect frame
+//@assume as o18_1_untracked_syn
+amp!(o18_1_pending_disconnect, true, 4);
+//@h props=C18 tier=thorough timeout=1500 role=server-amplification args=--no-memory-safety-checks
+//@fn Server::handle_frame (stray frame types)
+//@bound address A pending; a data frame
+//@assume as o18_1_untracked_syn
+amp!(o18_1_pending_data, true, 6);
+//@h props=C18 tier=thorough timeout=1500 role=server-amplification args=--no-memory-safety-checks
+//@fn Server::handle_frame (stray frame types)
+//@bound address A untracked; a handshake ACK / Disconnect / data / sync / ack frame (five obligations share this shape: this one is the ACK)
+//@assume as o18_1_untracked_syn
+amp!(o18_1_untracked_ack, false, 2);
+//@h props=C18 tier=thorough timeout=1500 role=server-amplification args=--no-memory-safety-checks
+//@fn Server::handle_frame (stray frame types)
+//@bound address A untracked; a Disconnect frame
+//@assume as o18_1_untracked_syn
+amp!(o18_1_untracked_disconnect, false, 4);
+//@h props=C18 tier=thorough timeout=1500 role=server-amplification args=--no-memory-safety-checks
+//@fn Server::handle_frame (stray frame types)
+//@bound address A pending; a sync frame; an ack frame (this one: sync)
+//@assume as o18_1_untracked_syn
+amp!(o18_1_pending_sync, true, 7);
